@@ -52,4 +52,37 @@ def IsNext (s : Store) (x h : Height) : Prop := s.has h ∧ hk x < hk h ∧ ∀ 
 /-- `h` is the least stored height -/
 def IsOldest (s : Store) (h : Height) : Prop := s.has h ∧ ∀ h', s.has h' → hk h ≤ hk h'
 
+/-- **C20**: relation between a client store and the same client's store at a later time: the client
+    state is not lost, the latest height has not decreased, and every consensus state stored earlier is
+    either still there unchanged, or gone — and then strictly below everything stored now (so it can
+    never come back with different contents) -/
+structure Later (s0 s : Store) : Prop where
+  client : s0.client.isSome = true → s.client.isSome = true
+  latest : hk s0.latestHeight ≤ hk s.latestHeight
+  kept : ∀ h c, s0.getCons h = some c →
+    s.getCons h = some c ∨ (s.getCons h = none ∧ ∀ h', s.has h' → hk h < hk h')
+
+/-- side condition on the migration-only entry point `PruneAllExpiredConsensusStates`: the client's
+    timestamps are monotone when it runs (always true for clients that were only ever updated, see C23) -/
+def OpOK (w : World) : Op → Prop
+  | .pruneAll cid => TsMono (w.client cid)
+  | _ => True
+
+def HistOK : World → List Op → Prop
+  | _, [] => True
+  | w, op :: ops => OpOK w op ∧ HistOK (step w op).1 ops
+
+/-- operations other than upgrade and recovery -/
+def Op.isUpdateLike : Op → Bool
+  | .upgrade _ _ => false
+  | .recover _ _ => false
+  | _ => true
+
+def Op.isPruneAll : Op → Bool
+  | .pruneAll _ => true
+  | _ => false
+
+/-- every client's stored timestamps increase with height -/
+def WTsMono (w : World) : Prop := ∀ cid, TsMono (w.client cid)
+
 end IbcVerif.Tm
